@@ -35,16 +35,25 @@ def level_exact(level: str) -> Fraction:
 
 
 def call_iso(case):
+    import warnings
+
     from model_diagnostics._utils.isotonic import isotonic_regression
 
     y = np.array([float(frac(v)) for v in case["y"]], dtype=float)
     w = None if case.get("w") is None else np.array([float(frac(v)) for v in case["w"]], dtype=float)
+    if case.get("ydtype"):  # narrow / unsigned / boolean dtypes (values are integral)
+        y = y.astype(case["ydtype"])
+    if case.get("wdtype") and w is not None:
+        w = w.astype(case["wdtype"])
     y0 = y.copy()
     w0 = None if w is None else w.copy()
+    inc = case["inc"]
+    # the flag as numpy comparisons deliver it, or as 0 / 1
+    inc = {"np_bool": np.bool_(inc), "int": int(inc)}.get(case.get("inc_kind"), inc)
     try:
-        x, r = isotonic_regression(
-            y, w, increasing=case["inc"], functional=case["f"], level=level_float(case["level"])
-        )
+        with warnings.catch_warnings():
+            warnings.simplefilter("ignore")
+            x, r = isotonic_regression(y, w, increasing=inc, functional=case["f"], level=level_float(case["level"]))
     except Exception as e:
         return {"err": exc_class(e)}
     out = {"x": [float(v) for v in x], "r": [int(v) for v in r]}
@@ -286,6 +295,26 @@ def gen_w(rng, n, allow_none=True):
     if style == "tiny":
         return [str(Fraction(v)) for v in ws]
     return [str(Fraction(v)) for v in ws]
+
+
+def gen_dtype_case(rng, f, level):
+    """integral observations in a narrow / unsigned / boolean dtype (zeros included), weights in a narrow dtype"""
+    n = rng.randint(2, 12)
+    ydt = rng.choice(["bool", "int8", "uint8", "uint16", "uint32", "int64", "float32"])
+    ys = [rng.randint(0, 1) for _ in range(n)] if ydt == "bool" else [rng.choice([0, 0, rng.randint(0, 100)]) for _ in range(n)]
+    if rng.random() < 0.4:
+        ys.sort(reverse=rng.random() < 0.7)
+    wdt = None if f in ("quantile", "median") else rng.choice([None, "uint8", "int16", "int32", "bool"])
+    if wdt is None:
+        w = None
+    elif wdt == "bool":
+        w = [1] * n
+    else:
+        top = {"uint8": 120, "int16": 20000, "int32": 1_500_000_000}[wdt]
+        w = [rng.randint(top // 2, top) for _ in range(n)]
+    return {"stream": "dtype", "f": f, "level": level, "inc": rng.random() < 0.5, "ydtype": ydt, "wdtype": wdt,
+            "inc_kind": rng.choice([None, "np_bool", "int"]),
+            "y": [str(v) for v in ys], "w": None if w is None else [str(v) for v in w]}
 
 
 def small_scope(n_max, alphabet=(0, 1, 2, 3)):
